@@ -1,0 +1,23 @@
+//go:build verif
+
+package lang
+
+// Contracts for the deductive verifier in /verif (govc). Comment-only file: adds no code.
+
+// Repr (the identity under which consistent-hash nodes and keys are hashed): nil is the empty text, a Stringer its
+// own String(), a string itself, integers their decimal form - in particular two different strings never share a
+// representation.
+//@ func Repr
+//@   prop C13
+//@   opaque reprOfValue
+//@   ensures [nil-is-empty] v == nil ==> result == "" && calls(reprOfValue) == 0
+//@   ensures [stringer-speaks-for-itself] calls(String) == 1 ==> result == ret(String) && calls(reprOfValue) == 0
+//@   ensures [plain-values-by-their-own-value] v != nil && calls(String) == 0 && (typeis(v, string) || typeis(v, int) || typeis(v, int64) || typeis(v, uint64) || typeis(v, bool) || typeis(v, float64)) ==> calls(reprOfValue) == 1 && arg(reprOfValue, 0) == ret(reflect.ValueOf) && result == ret(reprOfValue) && calls(Elem) == 0
+//@ func reprOfValue
+//@   prop C13
+//@   let x = ret(Interface)
+//@   ensures [string-is-itself] typeis(x, string) && calls(Error) == 0 && calls(String) == 0 ==> result == unbox(x, string)
+//@   ensures [int-in-decimal] typeis(x, int) ==> calls(strconv.Itoa) == 1 && arg(strconv.Itoa, 0) == unbox(x, int) && result == ret(strconv.Itoa)
+//@   ensures [int64-in-decimal] typeis(x, int64) ==> calls(strconv.FormatInt) == 1 && arg(strconv.FormatInt, 0) == unbox(x, int64) && arg(strconv.FormatInt, 1) == 10 && result == ret(strconv.FormatInt)
+//@   ensures [uint64-in-decimal] typeis(x, uint64) ==> calls(strconv.FormatUint) == 1 && arg(strconv.FormatUint, 0) == unbox(x, uint64) && arg(strconv.FormatUint, 1) == 10 && result == ret(strconv.FormatUint)
+//@   ensures [bool-as-word] typeis(x, bool) ==> calls(strconv.FormatBool) == 1 && arg(strconv.FormatBool, 0) == unbox(x, bool) && result == ret(strconv.FormatBool)
